@@ -149,8 +149,9 @@ def run(ctx):
         "strings contain no newline; header names are lower-cased and repeated headers joined by Envoy before matching",
         "IPv4 only (the model's address parser does not read IPv6 literals); path = :path without query/fragment",
         "JWT claims are what envoy.filters.http.jwt_authn wrote to dynamic metadata (request attributes are inputs)",
-        "trust-domain migration is the identity for the main theorems (hypothesis `mig`); aliases are covered by the structural "
-        "differential and trustdomain_alias theorems",
+        "trust-domain bundle without '*' / '/' entries and principal values whose trust-domain part is '*' or wildcard-free (hypothesis "
+        "`mig`, proved by migration_sem); other alias shapes are tied by the structural differential only",
+        "CUSTOM: the external authorizer is taken to allow; only gRPC extension providers are modelled",
     ]
     ctx.trusted.append("lean/IstioModel/C08/Envoy.lean: Envoy RBAC semantics written from documentation (not executed against Envoy)")
     ctx.trusted.append("harness/c08/interp.go + spec.go: Go reference RBAC interpreter (regex via Go regexp/RE2) and Go transcription of the statement")
@@ -208,18 +209,21 @@ def replay(ctx, path):
 
 MANIFEST = {
     "level_text": ("Lean 4 compiler-correctness proof: an executable model of Istio's AuthorizationPolicy -> Envoy RBAC compiler "
-                   "(model.New/Generate, every generator, matcher.*, MigrateTrustDomain, Builder.build, filter order) is proved, against "
-                   "Envoy's documented RBAC semantics, to decide every request as the policy semantics of the statement say "
-                   "(compile_correct_http) and never more permissively on any chain incl. TCP and untranslatable values "
-                   "(compile_failclosed_tcp); each value->matcher translation has its own matcher_correct_* theorem (namespace wildcards: "
-                   "proved partial + proved counterexample). The model is tied to /repo on every run by a structural differential against "
-                   "the real validator/selection/builder output and a request-level differential through a reference RBAC interpreter."),
+                   "(model.New/Generate, every generator incl. JWT and metadata ones, matcher.*, MigrateTrustDomain with aliases, Builder.build "
+                   "for ALLOW/DENY/AUDIT/CUSTOM, dry-run, filter order, selection) is proved, against Envoy's documented RBAC semantics, to "
+                   "decide every request as the policy semantics of the statement say (compile_correct_http, compile_all_correct_http) and "
+                   "never more permissively on any chain incl. TCP and untranslatable values (compile_failclosed_tcp, tcp_allow_rule_dropped, "
+                   "tcp_deny_enforced_on_remaining); each value->matcher translation has its own matcher_correct_* theorem, where one is "
+                   "false the exact exception is proved with a counterexample. The model is tied to /repo on every run by a structural "
+                   "differential against the real validator/selection/builder output and a request-level differential through a reference "
+                   "RBAC interpreter."),
     "level_note": ("Trusted: Lean kernel + {propext, Classical.choice, Quot.sound}; Envoy semantics written from docs (no Envoy in sandbox); "
-                   "the hand-written model (tied by differential testing on ~2400 policy sets / ~20000 requests quick); Go reference "
-                   "interpreter and Go spec. Main theorems assume: identity trust-domain migration (aliases handled separately), values "
-                   "inside the proved matcher scope (hypsB, evaluated on every generated case), distinct generated policy names. IPv4 only; "
-                   "JWT/CUSTOM/path-template parts are tied structurally, theorems partial. Known deviation: namespace wildcard regex "
-                   "spans '/' (witness theorem + corpus)."),
+                   "the hand-written model (tied by differential testing on ~6500 policy sets / ~57000 requests quick); Go reference "
+                   "interpreter and Go spec. Main theorems hold under decidable hypotheses evaluated on every generated case (hypsAllB: "
+                   "values inside the proved matcher scope, plain trust-domain bundle/values, Istio-form peer identity, distinct generated "
+                   "names) - about 85-90% of the generated (policy, request) pairs. IPv4 only; external authorizer of CUSTOM assumed to allow; "
+                   "path templates via a shared matcher. Known findings: namespace `*a`/`*sa` regex over-match, requestPrincipals prefix "
+                   "split; fixed: dry-run CUSTOM policy enforced as DENY."),
     "technique": "Lean 4 compiler-correctness theorems over an exact model of the RBAC generators + structural and request-level differential with the real Go builder",
     "design_ref": "DESIGN.md section 5 C08",
 }
